@@ -1,4 +1,4 @@
-from lib import flow
+from lib import flow, vlib
 
 _SIM = dict(module="MetaStore", depth=12)
 _ASSUME_ETCD = "etcd backend: one embedded etcd v3.5.5 per driver process, wiped before every plan"
@@ -21,6 +21,10 @@ C = dict(
         # exhaustive small universe: every history of depth 3 (first step creates a record)
         _src("small", "MetaStore_PlanSmall.cfg", "mysql", cap={"quick": 1000}, workers=4),
         _src("small", "MetaStore_PlanSmall.cfg", "etcd", cap={"quick": 250, "thorough": 4000}, workers=4),
+        # exhaustive over the collection-id universe of one task: ordinary id 1, reserved ids -10 (operation / rpc channel
+        # checkpoint) and -1 (task-level record), wildcard 0; every checkpoint operation, depth 3 (7,610 plans)
+        _src("reserved", "MetaStore_PlanReserved.cfg", "mysql", cap={"quick": 500}, workers=4),
+        _src("reserved", "MetaStore_PlanReserved.cfg", "etcd", cap={"quick": 300, "thorough": 4000}, workers=4),
         # random deep plans, dense and full adversarial universe, with faults
         _src("dense", "MetaStore_PlanDense.cfg", "mysql", simulate={"quick": 150, "thorough": 3000}, depth=12,
              cap={"quick": 800, "thorough": 9000}),
@@ -38,7 +42,9 @@ C = dict(
                          len({e.get("root") for e in t["events"]}) > 1,
     rule="plans = complete histories of MetaStore.tla (exhaustive for the small universe, TLC -simulate with random "
          "parameters for the dense and the full adversarial universe), each replayed on the mysql stores (fake SQL engine) "
-         "and, sampled, on the etcd stores (embedded etcd); a trace is non-trivial if at least two tenants were addressed "
+         "and, sampled, on the etcd stores (embedded etcd); collection ids = ordinary ids 1 / 12, the reserved non-positive ids the "
+         "server keeps checkpoints under (-10 operation / rpc channel, -1 task level) and the wildcard 0, for every checkpoint "
+         "operation incl. the store's Get(task, collection); a trace is non-trivial if at least two tenants were addressed "
          "and at least one record was stored; distinct = distinct event sequences (call, result, full backend dump)",
     assumptions=[
         "mysql backend = the real MySQLMetaStore/MySQLReplicateStore over harness/sqlfake (trusted base): exactly the "
@@ -53,6 +59,8 @@ C = dict(
         "faults = a decorator around api.MetaStoreFactory failing the k-th store call of one operation before or after "
         "delegating; on mysql additionally the COMMIT statement inside the real commit function",
         "collection id 0 is treated as the code's wildcard (any/all collections of the task), see selftest/C12.md",
+        "only id 0 is a wildcard: the reserved ids -10 (model.ReplicateCollectionID) and -1 (model.TmpCollectionID) name one record "
+        "each, exactly like a positive id (the rpc channel reader and Create address them with the same store calls)",
         "an operation may fail only with an injected fault or when no successful outcome exists (record missing, state "
         "precondition) - a spurious error is rejected even if nothing changed",
         "TLC exhaustiveness holds for the constants in the cfg files only",
@@ -60,5 +68,16 @@ C = dict(
 )
 
 
+def must_violate(cfg, what):
+    """a defect class the checked code does not have: its model variant must leave the contract (non-vacuity of the switch)"""
+    r = vlib.run_tlc("MetaStore", cfg, workers=4, timeout=600, tag="c12-neg")
+    if "Contract" not in r.violated:
+        raise vlib.Inconclusive("%s no longer shows the contract violation of '%s':\n%s" % (cfg, what, r.out[-2000:]))
+    vlib.log("[c12] %s: Contract violated by the model variant '%s', as expected (%d states)" % (cfg, what, r.distinct))
+
+
 def run(tier, replay=None):
+    if not replay:
+        must_violate("MetaStore_PosKeyPositive.cfg",
+                     "the exact (task, collection) key is chosen for positive ids only: reserved ids -10 / -1 address the whole task")
     return flow.standard_flow(C, tier, replay)
